@@ -1,5 +1,6 @@
 import GcArena.Proofs.Quiet
 import GcArena.Proofs.Exact
+import GcArena.Proofs.RunBridge
 /-!
 # C07 — Finalization: dead means unreachable, resurrection holds for the cycle
 
@@ -124,6 +125,30 @@ theorem marked_exact :
   have h0 : CInv a.ctx a.root [] := by
     have := hinv.cinv; rw [hinv.cbTemps hcb] at this; exact this
   exact marked_exact_of_micros h0 hsl (.wake :: ms) hs hm i o ho
+
+/-- **Exact if unmutated, at the API** (proved): on any sleeping state an arena can reach, outside
+    callbacks, the self-driven `Arena::finish_marking()` returns `Some(MarkedArena)`, and in the
+    arena it hands to `finalize` an allocated object reports `is_dead` exactly when it is not
+    strongly reachable from the root. -/
+theorem marked_exact_run (n : Nat) (pre : List Op) :
+    let a := (Arena.new n).run pre
+    a.alive = true → a.cb = none → a.ctx.phase = .sleep →
+    let r := a.step (.collect .finishMarking .finalize none none)
+    r.2 = "some" ∧ r.1.root = a.root ∧
+    ∀ i o, r.1.ctx.heap.get i = some o → (isDead r.1.ctx i ↔ ¬ StrongReach r.1 i) := by
+  intro a halive hcb hsl r
+  have h : Inv a := inv_run n pre halive
+  have h0 := h.cinv0 hcb
+  obtain ⟨hctx, hout⟩ := step_finishMarking_ctx h hcb .finalize (by decide)
+  have hm := finishMarking_isMarked h0 (root := a.root) (by rw [hsl]; simp)
+  have hroot : r.1.root = a.root := (step_collect_rel h _ _ _ _).root
+  refine ⟨hout.mpr hm, hroot, ?_⟩
+  intro i o ho
+  show isDead r.1.ctx i ↔ ¬ StrongReachC r.1.ctx r.1.root i
+  rw [hroot]
+  rw [hctx] at ho ⊢
+  obtain ⟨ms, hms⟩ := doCollection_reaches (ru := .stop) (stop := .fullyMarked) (fault := none) h0
+  exact marked_exact_of_micros h0 hsl ms hms hm i o ho
 
 /-- **Resurrection protects for the cycle** (proved): an object that is gray or black in the
     mark phase — in particular one just resurrected (`resurrect_queues`) — is, in every sweep-phase
